@@ -13,7 +13,7 @@
 import glob, json, os, subprocess, sys, time
 
 VERIF = "/verif"
-BASE = "/tmp/lane"
+BASE = os.environ.get("LANE_BASE", "/tmp/lane")
 
 
 def sh(cmd, **kw):
